@@ -71,7 +71,7 @@ package bridgesync
 // ---- block processing (C07: all-or-nothing; C14: fail-stop) and reorg (C04, C14)
 
 //@ func (p *processor) ProcessBlock
-//@   props C07 C14
+//@   props C01 C07 C14
 //@   requires p != nil && p.db != nil && p.log != nil && p.exitTree != nil && p.exitTree.Tree != nil && len(p.exitTree.zeroHashes) == 33
 //@   requires lastTx < heapTop
 //@   requires rhtOK(rhtHas(p.exitTree.Tree), rhtL(p.exitTree.Tree), rhtR(p.exitTree.Tree))
@@ -86,6 +86,9 @@ package bridgesync
 // missing" (C07) the report may only be made by a store that from now on refuses every block, i.e. a halted one;
 // any other failure must be reported as an ordinary error, which the driver answers by retrying the same block
 //@   ensures[inconsistency-report-means-halted] result == sync.ErrInconsistentState ==> p.halted
+// per-event wiring (C01): the leaf appended for a bridge event sits at the event's deposit count and is the leaf value of
+// that event's fields (Bridge.Hash, proved), recorded for this block at the event's position, through this transaction
+//@   assert call:AddLeaf arg0 == p.exitTree && arg1 == tx && arg2 == block.Num && arg3 == event.Bridge.BlockPos && arg4.Index == event.Bridge.DepositCount
 //@   ensures[deposit-count-gap-halts] (!old(p.halted) && leafCalls != old(leafCalls) && isErr(lastLeafErr, tree.ErrInvalidIndex)) ==> p.halted && result == sync.ErrInconsistentState
 //@   ensures[committed-only-if-every-statement-succeeded] result == nil ==> stmtFail == old(stmtFail)
 //@   loop 0 invariant p.halted == old(p.halted) && !p.halted && p.log == old(p.log) && p.log != nil && p.exitTree == old(p.exitTree) && p.exitTree != nil && p.exitTree.Tree != nil && len(p.exitTree.zeroHashes) == 33
